@@ -289,9 +289,19 @@ func (w *world) addFact(name, id string, fact M) opResult {
 	if err != nil {
 		return opResult{"", err}
 	}
-	it := modelFactItem(fact)
-	w.applyExpiry(it, t0, t1)
 	isProp, target, prop, multiple := factProp(fact)
+	stored := fact
+	if isProp && !multiple {
+		// a property depends on its target, however it is written
+		stored = withTargetDependency(fact, target)
+	}
+	it := modelFactItem(stored)
+	w.applyExpiry(it, t0, t1)
+	if isProp && !multiple {
+		alt := modelFactItem(fact)
+		w.applyExpiry(alt, t0, t1)
+		it.AltStored = alt.Stored
+	}
 	wantId := id
 	if isProp && !multiple {
 		wantId = propId(target, prop)
@@ -574,7 +584,7 @@ func (w *world) checkGet(name, id, when string) {
 		w.o.Fail("GET_LOST", "%s: %s GetFact(%q) failed with %v; expected %s", when, name, id, err, vlib.JSON(it.Stored))
 		return
 	}
-	if !equalStored(it.Stored, map[string]interface{}(got)) {
+	if !equalStored(it.Stored, map[string]interface{}(got)) && (it.AltStored == nil || !equalStored(it.AltStored, map[string]interface{}(got))) {
 		w.o.Fail("GET_WRONG", "%s: %s GetFact(%q) = %s; expected %s", when, name, id, vlib.JSON(got), vlib.JSON(it.Stored))
 	}
 }
@@ -1336,4 +1346,22 @@ func diffObs(a, b map[string]string) []string {
 	}
 	sort.Strings(d)
 	return d
+}
+
+// withTargetDependency is the stored form of a property written as a fact:
+// its deleteWith names the target (other ids given by the writer stay).
+func withTargetDependency(fact M, target string) M {
+	out := gen.CopyMap(fact)
+	switch dw := out["deleteWith"].(type) {
+	case nil:
+		out["deleteWith"] = A{target} // (absent, or an explicit null)
+	case []interface{}:
+		for _, v := range dw {
+			if s, ok := v.(string); ok && s == target {
+				return out
+			}
+		}
+		out["deleteWith"] = append(append(A{}, dw...), target)
+	}
+	return out
 }
